@@ -53,6 +53,9 @@ func main() {
 	case "fake-agent":
 		fakeAgentMain()
 		return
+	case "stderr-holder":
+		stderrHolderMain()
+		return
 	case "c36-worker":
 		c36WorkerMain()
 		return
